@@ -523,6 +523,7 @@ def gen_operand(draw, env, kind):
         return ['matrix_inline', name, rows, cols, order]
     inner = env.child()
     inner.matrix = dims
+    inner.matrix_target = name
     body = gen_matrix_body(draw, inner)
     env.merge_nested(inner)
     return ['matrix_block', name, body]
@@ -545,9 +546,22 @@ def gen_matrix_body(draw, env):
     for _ in range(rint(draw, 0, env.prof['matrix_stages'])):
         kind = pick(draw,
                     ['stage', 'stage', 'stage', 'setreg', 'assign', 'loop',
-                     'if', 'default', 'lightloop', 'units', 'other'])
+                     'if', 'default', 'lightloop', 'units', 'other',
+                     'retarget'])
+        target = getattr(env, 'matrix_target', None)
         if kind == 'stage':
             body += gen_stage(draw, env)
+        elif kind == 'retarget':
+            # the variable that named the block's light gets another value
+            # inside the block: the block is still for the light it was
+            # opened for
+            if target is not None and target[0] == 'var' and \
+                    target[1] in LIGHT_VARS and target[1] not in env.active:
+                body.append(['assign', target[1], light_name(draw, env)])
+                env.light_defined.add(target[1])
+                env.assigned.add(target[1])
+            else:
+                body += gen_stage(draw, env)
         elif kind == 'other':
             # a command that names another light (fetch its colour, switch
             # it): the block still belongs to the light it was opened for
